@@ -98,6 +98,7 @@ def check_find_valid_neighbors(ctx, report, status, ks, rng, n):
 PIXEL_KERNELS = {  # Lean name -> (class, method, cell tolerated on a tie of |d| with opposite signs: numba's argsort is not stable)
     "occlusionSgmPx": ("SgmInterpolation", "interpolate_occlusion_sgm", True),
     "mismatchSgmPx": ("SgmInterpolation", "interpolate_mismatch_sgm", False),
+    "occlusionMcCnnPx": ("McCnnInterpolation", "interpolate_occlusion_mc_cnn", False),
 }
 
 
